@@ -140,16 +140,21 @@ class World:
             if k in STRUCTURAL:
                 st["transcribed"] = False
             return "ok"
-        if k == "query":
-            return self._query(act, st, step)
-        if k == "solve":
-            return self._solve(act, st, step)
-        if k == "read_ncs":
-            try:
-                s = act.ocp.non_converged_solution
-                return "ok"
-            except Exception as e:
-                return "raised:" + type(e).__name__
+        if k in ("query", "solve", "read_ncs"):
+            fp0 = declared_fingerprint(act.ocp)
+            if k == "query":
+                out = self._query(act, st, step)
+            elif k == "solve":
+                out = self._solve(act, st, step)
+            else:
+                try:
+                    act.ocp.non_converged_solution
+                    out = "ok"
+                except Exception as e:
+                    out = "raised:" + type(e).__name__
+            if declared_fingerprint(act.ocp) != fp0:
+                raise Violation("declared-changed", "%s altered what the user declared" % json.dumps(step)[:200])
+            return out
         if k == "save":
             return self._save(act, st, step)
         if k == "load":
